@@ -78,6 +78,17 @@ def bootstrap_repo() -> None:
         raise Inconclusive(f"decaylanguage imported from {where}, not from {src}")
 
 
+# Environment profiles: the answers the properties speak of may depend on the input (and, where stated, the call history) only -- never on the
+# locale / default text encoding, `python -O`, the warning filters, the working directory, the time zone or on what was imported before the
+# library.  Worker i of a run executes its share of the workload under profile i % len(ENV_PROFILES); the monitors are the same in all of them.
+ENV_PROFILES = [
+    ("default", [], {}),
+    ("c-locale", [], {"LC_ALL": "C", "LANG": "C", "LANGUAGE": "C", "PYTHONUTF8": "0", "PYTHONCOERCECLOCALE": "0", "PYTHONIOENCODING": ""}),
+    ("optimised-warnings-ignored", ["-O"], {"PYTHONWARNINGS": "ignore"}),
+    ("elsewhere", [], {"VMON_CHDIR": "1", "VMON_PREIMPORT": "json,decimal,numpy,pandas,graphviz,particle,lark", "TZ": "Pacific/Kiritimati"}),
+]
+
+
 def child_env() -> dict:
     env = dict(os.environ)
     env["PYTHONDONTWRITEBYTECODE"] = "1"
@@ -222,8 +233,18 @@ def run_worker(pid: str, tier: str, seed: int, shard: int, nshards: int, out: st
 
     ctx = Ctx(pid, tier, seed, shard, nshards)
     res = {}
+    profile = os.environ.get("VMON_ENV_PROFILE", "default")
     try:
         ensure_deps()
+        if os.environ.get("VMON_CHDIR") and os.environ.get("VMON_RUN_DIR"):
+            elsewhere = os.path.join(os.environ["VMON_RUN_DIR"], f"cwd-{shard}")
+            os.makedirs(elsewhere, exist_ok=True)
+            os.chdir(elsewhere)
+        for name in filter(None, os.environ.get("VMON_PREIMPORT", "").split(",")):
+            try:
+                importlib.import_module(name)
+            except ImportError:
+                pass
         bootstrap_repo()
         mod = importlib.import_module(f"vmon.props.{pid}")
         budget = getattr(mod, "WATCHDOG", {"quick": 900, "thorough": 3300})[tier]
@@ -237,6 +258,7 @@ def run_worker(pid: str, tier: str, seed: int, shard: int, nshards: int, out: st
         finally:
             tr.stop()
             faulthandler.cancel_dump_traceback_later()
+        ctx.classes[f"environment:{profile}:monitored-executions"] += ctx.evaluations
         res = ctx.dump()
         res["anchors"] = tr.report()
     except Inconclusive as e:
@@ -367,11 +389,18 @@ def run_parent(pid: str, tier: str, workers: int | None = None) -> int:
         procs = []
         for i in range(n):
             out = os.path.join(wd, f"w{i}.json")
-            cmd = [sys.executable, "-X", "faulthandler", "-W", "default::ResourceWarning", "-m", "vmon", pid,
+            pname, pflags, penv = ENV_PROFILES[i % len(ENV_PROFILES)] if os.environ.get("VMON_ENV_PROFILES", "1") != "0" else ENV_PROFILES[0]
+            cmd = [sys.executable, "-X", "faulthandler", *pflags, "-W", "default::ResourceWarning", "-m", "vmon", pid,
                    "--tier", tier, "--worker", f"{i}/{n}", "--out", out]
             log = open(os.path.join(wd, f"w{i}.log"), "w")
             env = child_env()
             env["VMON_RUN_DIR"] = wd
+            env["VMON_ENV_PROFILE"] = pname
+            for k, v in penv.items():
+                if v == "":
+                    env.pop(k, None)
+                else:
+                    env[k] = v
             procs.append((i, out, log, subprocess.Popen(cmd, cwd=VERIF, env=env, stdout=log, stderr=log)))
         parts = []
         deadline = time.time() + limit
